@@ -656,6 +656,11 @@ impl Sim {
         for s in &mut self.sess {
             s.closed = true;
         }
+        // Quiescence re-ingests everything everywhere; sample the in-policy dumps.
+        {
+            let mut l = self.log.borrow_mut();
+            l.dump_every = l.dump_every.max(1) * 4;
+        }
         let n = self.reps.len();
         for r in 0..n {
             if self.crashed[r] {
